@@ -989,7 +989,7 @@ mutant("pzx-castle-wall-arrow-includes-far-side", "C11", PZ + "castle_wall.py", 
 mutant("pzx-shakashaka-clue-counts-empty", "C11", PZ + "shakashaka.py", "count_true(answer.four_neighbors(y, x) != 0) == problem[y][x]", "count_true(answer.four_neighbors(y, x) == 0) == problem[y][x]", "PZ-X")
 mutant("pzx-shakashaka-white-angle", "C11", PZ + "shakashaka.py", "            solver.ensure(count_true(is_white_angle) != 3)\n", "", "PZ-X")
 mutant("pzx-nurimisaki-2x2-white-allowed", "C11", PZ + "nurimisaki.py", "    solver.ensure(~(is_white[:-1, :-1] & is_white[1:, :-1] & is_white[:-1, 1:] & is_white[1:, 1:]))\n", "", "PZ-X")
-mutant("pzx-compass-left-counts-right", "C11", PZ + "compass.py", "            solver.ensure(count_true(division[:, :x] == i) == lf)", "            solver.ensure(count_true(division[:, x:] == i) == lf)", "PZ-X")
+mutant("pzx-compass-left-counts-right", "C11", PZ + "compass.py", "            solver.ensure(count_true(division[:, :x] == i) == lf)\n        if rg >= 0:\n            solver.ensure(count_true(division[:, (x + 1) :] == i) == rg)\n    is_sat = solver.solve()", "            solver.ensure(count_true(division[:, x:] == i) == lf)\n        if rg >= 0:\n            solver.ensure(count_true(division[:, (x + 1) :] == i) == rg)\n    is_sat = solver.solve()", "PZ-X")
 mutant("pzx-geradeweg-vertical-uses-horizontal", "C11", PZ + "geradeweg.py", "                        line_length(reversed(list(grid_frame.vertical[:y, x])))\n                        + line_length(grid_frame.vertical[y:, x])", "                        line_length(reversed(list(grid_frame.vertical[:y, x])))\n                        + line_length(grid_frame.vertical[y + 1:, x])", "PZ-X")
 mutant("pzx-view-same-number-adjacent", "C11", PZ + "view.py", "    solver.ensure((has_number[:, :-1] & has_number[:, 1:]).then(nums[:, :-1] != nums[:, 1:]))\n", "", "PZ-X")
 mutant("pzx-fivecells-border-count-off", "C11", PZ + "fivecells.py", "                always_border = 4 - len(borders)", "                always_border = 3 - len(borders)", "PZ-X")
